@@ -22,6 +22,9 @@
 // the two converters in turn with bit-identical arguments, and every oracle is applied unchanged
 // to each of them: state that leaks from one converter object to another (a cache keyed on part
 // of the parameters, a static buffer) shows as the sibling's projection in place of one's own.
+#include <deque>
+#include <memory>
+#include <optional>
 #include <Eigen/Core>
 #include "romea_core_common/geodesy/LambertConverter.hpp"
 #include "vh.hpp"
@@ -88,6 +91,7 @@ struct PSet
   int zone = -1;                 // index in ZONES or -1
   std::string name = "random";
   const char * ell = "";
+  const char * radius_kind = "";   // spheres: round / authalic / continuous
   int ell_id = 0;
   double a = 0, b = 0;
   double lat0 = 0, lon0 = 0, lat1 = 0, lat2 = 0, k0 = 1, x0 = 0, y0 = 0;
@@ -133,14 +137,19 @@ static void pick_ellipsoid(vh::Rng & r, PSet & p)
   if (k <= 1) {p.ell = "GRS80"; p.ell_id = 0; p.a = GRS80_A; p.b = GRS80_B;} else if (k == 2) {
     p.ell = "Clarke1880IGN"; p.ell_id = 1; p.a = CLARKE_A; p.b = CLARKE_B;
   } else if (k == 3) {p.ell = "International1924"; p.ell_id = 2; p.a = INTL_A; p.b = INTL_B;} else if (k == 4) {
-    p.ell = "sphere"; p.ell_id = 3; p.a = r.coin() ? 6378137.0 : 6371000.0; p.b = p.a;
+    // e = 0: the radius is a free parameter too (round values, the authalic radius, any double)
+    p.ell = "sphere"; p.ell_id = 3;
+    int m = (int)r.range(0, 9);
+    p.radius_kind = m == 0 ? "round" : m == 1 ? "authalic" : "continuous";
+    p.a = m == 0 ? (r.coin() ? 6378137.0 : 6371000.0) : m == 1 ? 6371007.180918475 : r.uni(6.3e6, 6.4e6);
+    p.b = p.a;
   } else {
     p.ell = "random"; p.ell_id = 4;
-    p.a = 6378137.0 * (1.0 + r.uni(-1e-3, 1e-3));
     int m = (int)r.range(0, 7);
-    double e = m == 0 ? 0.1 : m == 1 ? r.logu(1e-6, 1e-2) : r.uni(0.0, 0.1);
+    p.a = m == 1 ? r.uni(6.3e6, 6.4e6) : 6378137.0 * (1.0 + r.uni(-1e-3, 1e-3));
+    double e = m == 0 ? 0.1 : m == 1 ? r.logu(1e-9, 1e-2) : r.uni(0.0, 0.1);
     p.b = p.a * std::sqrt(1.0 - e * e);
-    if (p.b > p.a) {p.b = p.a;}
+    if (p.b >= p.a) {p.b = p.a; p.ell = "sphere"; p.ell_id = 3; p.radius_kind = "continuous";}
   }
 }
 
@@ -184,24 +193,76 @@ static PSet random_set(vh::Rng & r)
 // One converter under test with everything its oracles need.  A case has one unit, or two
 // ("siblings": parameter sets that differ in a single parameter) whose calls are interleaved.
 // ------------------------------------------------------------------------------------------
+// How the converter under test comes into being.  A copy / a moved-to object must behave like an
+// independent object once its source holds another configuration or is gone (value semantics).
+enum Construction {DIRECT = 0, COPY_SOURCE_OVERWRITTEN, MOVE_SOURCE_OVERWRITTEN, COPY_SOURCE_DESTROYED, VECTOR_GROWTH};
+static const char * const CONSTRUCTION_NAME[] = {
+  "direct", "copy_source_overwritten", "move_source_overwritten", "copy_source_destroyed", "vector_growth"};
+
+// calls f(parameter struct, ellipsoid) with the public parameter struct of the set
+template<class F> static auto with_parameters(const PSet & s, F && f)
+{
+  EarthEllipsoid ell(s.a, s.b);
+  if (s.tangent) {
+    return f(LambertConverter::TangentProjectionParameters{s.lat0, s.lon0, s.k0, s.x0, s.y0}, ell);
+  }
+  return f(LambertConverter::SecantProjectionParameters{s.lon0, s.lat0, s.lat1, s.lat2, s.x0, s.y0}, ell);
+}
+
 struct Unit
 {
   PSet p;
   Ref ref;
-  LambertConverter conv;
+  // owners (which of them is used depends on the construction) and the converter under test
+  std::unique_ptr<LambertConverter> own, source_heap, spare;
+  std::optional<LambertConverter> source_slot;
+  std::vector<LambertConverter> vec;
+  LambertConverter * conv = nullptr;
+  int construction = DIRECT;
   double e_lib;
   LD snyder_tol;
   bool south;
   bool inverse_dead = false;     // after a non-terminating inverse stop calling it for this unit
-  Unit(const PSet & ps, const EarthEllipsoid & ell)
-  : p(ps),
-    conv(ps.tangent ?
-      LambertConverter(
-        LambertConverter::TangentProjectionParameters{ps.lat0, ps.lon0, ps.k0, ps.x0, ps.y0}, ell) :
-      LambertConverter(
-        LambertConverter::SecantProjectionParameters{ps.lon0, ps.lat0, ps.lat1, ps.lat2, ps.x0, ps.y0}, ell)),
-    e_lib(ell.e), south(ps.lat0 < 0)
+
+  Unit(const PSet & ps, int how = DIRECT, const PSet * other = nullptr)
+  : p(ps), construction(how), e_lib(EarthEllipsoid(ps.a, ps.b).e), south(ps.lat0 < 0)
   {
+    auto heap = [](const auto & pp, const EarthEllipsoid & e) {return new LambertConverter(pp, e);};
+    auto slot = [this](const auto & pp, const EarthEllipsoid & e) {
+        source_slot.emplace(pp, e); return (LambertConverter *)nullptr;
+      };
+    auto push = [this](const auto & pp, const EarthEllipsoid & e) {
+        vec.emplace_back(pp, e); return (LambertConverter *)nullptr;
+      };
+    switch (how) {
+      case COPY_SOURCE_OVERWRITTEN:
+        with_parameters(p, slot);
+        own.reset(new LambertConverter(*source_slot));               // copy of a named source
+        with_parameters(*other, slot);                               // the source slot now holds another zone
+        conv = own.get();
+        break;
+      case MOVE_SOURCE_OVERWRITTEN:
+        with_parameters(p, slot);
+        own.reset(new LambertConverter(std::move(*source_slot)));    // moved-to object
+        with_parameters(*other, slot);
+        conv = own.get();
+        break;
+      case COPY_SOURCE_DESTROYED:
+        source_heap.reset(with_parameters(p, heap));
+        own.reset(new LambertConverter(*source_heap));
+        source_heap.reset();                                         // the source is gone
+        spare.reset(with_parameters(*other, heap));                  // and its memory may be reused
+        conv = own.get();
+        break;
+      case VECTOR_GROWTH:
+        with_parameters(p, push);                                    // element 0 ...
+        for (int i = 0; i < 4; ++i) {with_parameters(*other, push);} // ... relocated by the growth
+        conv = &vec[0];
+        break;
+      default:
+        own.reset(with_parameters(p, heap));                         // constructed in place
+        conv = own.get();
+    }
     if (p.tangent) {ref.tangent(p.a, p.b, p.lat0, p.lon0, p.k0, p.x0, p.y0);} else {
       ref.secant(p.a, p.b, p.lat0, p.lon0, p.lat1, p.lat2, p.x0, p.y0);
     }
@@ -213,6 +274,8 @@ struct Unit
     const LD EPS = std::numeric_limits<double>::epsilon();
     snyder_tol = std::max<LD>(1e-6L, 64 * EPS * (cond + 4) * (fabsl(ref.rho0) + fabsl(p.x0) + fabsl(p.y0)));
   }
+  Unit(const Unit &) = delete;
+  Unit & operator=(const Unit &) = delete;
 };
 
 static LambertConverter::ProjectionParameters library_constants(const PSet & p)
@@ -287,17 +350,32 @@ static void one_case(vh::Ctx & c, uint64_t idx)
   std::string cat = std::string(p.tangent ? "tangent_" : "secant_") + (p.lat0 < 0 ? "south" : "north");
   c.cat(cat);
   c.cat(std::string("ellipsoid_") + p.ell);
+  if (p.a == p.b) {c.cat(std::string("sphere_radius_") + p.radius_kind);} else if (
+    EarthEllipsoid(p.a, p.b).e < 1e-4)
+  {
+    c.cat("ellipsoid_tiny_eccentricity");
+  }
   if (p.zone >= 0) {c.cat("named_zone"); c.cat("zone_" + p.name);}
 
   // ---- units: the set alone, or the set and a sibling used in turn on identical points
-  std::vector<Unit> U;
-  U.reserve(2);
-  U.emplace_back(p, EarthEllipsoid(p.a, p.b));
+  std::deque<Unit> U;           // (deque: the units themselves are never relocated)
+  int how = DIRECT;
+  PSet other;
+  if (r.coin(0.3)) {
+    how = (int)r.range(COPY_SOURCE_OVERWRITTEN, VECTOR_GROWTH);
+    if (r.coin()) {
+      int z = (int)r.range(0, NZONES - 1);
+      other = zone(z == p.zone ? (z + 1) % NZONES : z);
+    } else {other = random_set(r);}
+    c.cat("value_semantics");
+    c.cat(std::string("value_semantics_") + CONSTRUCTION_NAME[how]);
+  }
+  U.emplace_back(p, how, &other);
   const char * sib = "";
   if (r.coin(0.4)) {
     PSet q;
     sib = make_sibling(r, p, q);
-    U.emplace_back(q, EarthEllipsoid(q.a, q.b));
+    U.emplace_back(q);
     c.cat("sibling_converters_interleaved");
     c.cat(std::string("sibling_differs_in_") + sib);
     auto ca = library_constants(p), cb = library_constants(q);
@@ -310,8 +388,8 @@ static void one_case(vh::Ctx & c, uint64_t idx)
     const PSet & q = U[NU - 1].p;
     c.distinct(
       vh::hash_doubles({(double)p.tangent, p.a, p.b, p.lat0, p.lon0, p.lat1, p.lat2, p.k0, p.x0, p.y0,
-          (double)NU, q.a, q.b, q.lat0, q.lon0, q.k0, q.x0, q.y0}),
-      !pinned_by_tests(p) || NU > 1);
+          (double)NU, q.a, q.b, q.lat0, q.lon0, q.k0, q.x0, q.y0, (double)how}),
+      !pinned_by_tests(p) || NU > 1 || how != DIRECT);
   }
 
   double lat = 0, lon = 0;      // current point (captured by the lambdas)
@@ -324,7 +402,8 @@ static void one_case(vh::Ctx & c, uint64_t idx)
         {"k0", u.p.k0}, {"e", (double)u.ref.e}, {"n", (double)u.ref.n},
         {"dlat_deg", (lat - u.p.lat0) / DEG}, {"dlon_deg", (lon - u.p.lon0) / DEG},
         {"lat", lat}, {"lon", lon}, {"zone", (double)u.p.zone},
-        {"interleaved", NU > 1 ? 1.0 : 0.0}, {"unit", (double)cu}};
+        {"interleaved", NU > 1 ? 1.0 : 0.0}, {"unit", (double)cu},
+        {"construction", (double)u.construction}};
     };
   auto setj_of = [&](const PSet & s) {
       return vh::J().s("set", s.name).boolean("tangent", s.tangent).s("ellipsoid", s.ell).f("a", s.a)
@@ -335,11 +414,18 @@ static void one_case(vh::Ctx & c, uint64_t idx)
   auto wit = [&]() {
       vh::J j;
       j.raw("set", setj_of(U[cu].p)).s("point", pcat).f("lat", lat).f("lon", lon);
+      j.s("construction", CONSTRUCTION_NAME[U[cu].construction]);
+      if (U[cu].construction != DIRECT) {j.raw("source_now_holds", setj_of(other));}
       if (NU > 1) {j.s("sibling_differs_in", sib).raw("used_in_turn_with", setj_of(U[1 - cu].p));}
       return j.str();
     };
   c.sample(cat, setj);
   if (p.zone >= 0) {c.sample("named_zone", setj);}
+  if (how != DIRECT) {
+    c.sample("value_semantics", [&]() {
+        return vh::J().s("construction", CONSTRUCTION_NAME[how]).raw("set", setj_of(p)).raw("source_now_holds", setj_of(other)).str();
+      });
+  }
   if (NU > 1) {
     c.sample("sibling_converters_interleaved", [&]() {
         return vh::J().s("differs_in", sib).raw("a", setj_of(U[0].p)).raw("b", setj_of(U[1].p)).str();
@@ -416,7 +502,7 @@ static void one_case(vh::Ctx & c, uint64_t idx)
     if (nactive > 1) {c.count("points_evaluated_on_both_siblings_in_turn");}
 
     auto fwd = [&](int u, double la, double lo, LD out[2]) -> bool {
-        Eigen::Vector2d v = U[u].conv.toLambert(WGS84Coordinates{la, lo});
+        Eigen::Vector2d v = U[u].conv->toLambert(WGS84Coordinates{la, lo});
         out[0] = v.x(); out[1] = v.y();
         return std::isfinite(v.x()) && std::isfinite(v.y());
       };
@@ -512,7 +598,7 @@ static void one_case(vh::Ctx & c, uint64_t idx)
       // (3) inverse of the forward image
       if (un.inverse_dead) {c.count("inverse_not_called_after_nontermination"); continue;}
       lw.reset_case();
-      WGS84Coordinates back = un.conv.toWGS84(Eigen::Vector2d((double)X[0], (double)X[1]));
+      WGS84Coordinates back = un.conv->toWGS84(Eigen::Vector2d((double)X[0], (double)X[1]));
       c.maxi("lambert_loop_iterations", (double)lw.case_max);
       auto w3 = [&]() {
           return vh::J().raw("case", wit()).f("x", X[0]).f("y", X[1]).f("lat_back", back.latitude)
